@@ -16,7 +16,7 @@ def new_labels(rng, labs, kind, stats):
     if kind == 'i' and rng.random() < 0.3: other = [x + 0.5 for x in labs[:2]] + [40]
     if fam == 'subset': return rng.sample(labs, rng.randint(0, len(labs)))
     if fam == 'superset':
-        l = list(labs) + rng.sample(other, rng.randint(1, 2)); rng.shuffle(l); return l
+        l = list(labs) + rng.sample(other, rng.randint(1, min(2, len(other)))); rng.shuffle(l); return l
     if fam == 'disjoint': return rng.sample(other, rng.randint(1, len(other)))
     if fam == 'permuted':
         l = list(labs); rng.shuffle(l); return l
@@ -24,7 +24,7 @@ def new_labels(rng, labs, kind, stats):
         return [rng.choice(labs + other) for _ in range(rng.randint(2, 4))] if labs else []
     if fam == 'empty': return []
     if fam == 'same': return list(labs)
-    l = rng.sample(labs, rng.randint(0, len(labs))) + rng.sample(other, rng.randint(0, 2)); rng.shuffle(l); return l
+    l = rng.sample(labs, rng.randint(0, len(labs))) + rng.sample(other, rng.randint(0, min(2, len(other)))); rng.shuffle(l); return l
 
 def generate(rng, n, tier, stats):
     cases = []
@@ -81,7 +81,7 @@ def oracle(case, res):
     a = case['ins'][0]; op = case['ops'][0]
     obs = arr_json(mk_array(a))
     if op[0] == 'reindex_like':
-        return None      # decided through the per-axis rule by correspondence; oracle below covers single axes
+        return oracle_like(case, res, obs)
     if op[0] == 'reindex':
         _, news, nk, r, fill, raise_error, method, as_ = op
     else:
@@ -124,6 +124,33 @@ def oracle(case, res):
         if not ok: return 'slice at new label %r: got %r, expected %r' % (news[pos[i]], got, want)
     if missing and fill is None and obs['kind'] == 'i' and rr['kind'] != 'f':
         return 'integer data not promoted to float when filled with NaN'
+    return None
+
+def oracle_like(case, res, obs):
+    """reindex_like applies the single-axis rule to every dimension shared with the template"""
+    import itertools
+    a = case['ins'][0]; t = case['ins'][case['ops'][0][1]]
+    if res[0] == 'err': return 'reindex_like raised %s' % res[1]
+    rr = res[1]['v']
+    if obs_dims(rr) != a['dims']: return 'dims changed'
+    want_labels = []
+    for j, d in enumerate(a['dims']):
+        want_labels.append(t['labels'][t['dims'].index(d)] if d in t['dims'] else a['labels'][j])
+    for j, ax in enumerate(rr['axes']):
+        if not labs_eq(ax['labels'], want_labels[j]):
+            return 'axis %s is %r, expected exactly %r (template)' % (ax['name'], ax['labels'], want_labels[j])
+    ac = cells(obs)
+    flat = rr['flat']
+    for k, pos in enumerate(itertools.product(*[range(len(l)) for l in want_labels])):
+        key = tuple(hl(want_labels[j][p]) for j, p in enumerate(pos))
+        # a label of another numeric type that compares equal addresses the same cell
+        got = flat[k]
+        if key in ac:
+            w = ac[key]
+            ok = (got == w) or (not isinstance(got, (dict, str)) and not isinstance(w, (dict, str)) and float(got) == float(w))
+            if not ok: return 'value at %r is %r, expected %r' % (key, got, w)
+        elif got != {'nan': 1}:
+            return 'value %r at labels %r the array did not have' % (got, key)
     return None
 
 def nontrivial(case, res):
